@@ -201,55 +201,10 @@ theorem selfweight_le (ws cons dz S : K) (hw : ws = 1 - dz * S) (hS : 0 ≤ S) (
   have : dz * S ≤ cons * S := mul_le_mul_of_nonneg_right hdz hS
   nlinarith
 
-/-- Bypass corner cell with the low-flow approximation.  Here the traced update
-couples the cell to the outer wall over the *inner* corner length while the traced
-limit uses the outer corner length; the limit is therefore conservative as long
-as corner lengths grow outwards (`wc_0_1 ≤ wc_1_1`, a fact of the geometry), and
-the step is still a convex combination. -/
-theorem c04_byp_7_66_ca (e : Env K) (hp : Pos e) (hwc : e.wc_0_1 ≤ e.wc_1_1)
-    (hdz : e.dz ≤ cons_byp_7_66_ca e) :
-    ConvexStep (Tnew_byp_7_66_ca e) (B_byp_7_66_ca e) (WTs_byp_7_66_ca e) (WTn0_byp_7_66_ca e)
-      (WTn1_byp_7_66_ca e) (WTn2_byp_7_66_ca e) (WTn3_byp_7_66_ca e) (WTn4_byp_7_66_ca e)
-      (WTw_byp_7_66_ca e) (WTw2_byp_7_66_ca e) := by
-  obtain ⟨h1,h2,h3,h4,h5,h6,h7,h8,h9,h10,h11,h12,h13,h14,h15,h16,h17,h18,h19,h20,h21,h22,h23,h24,h25,h26,h27,h28,h29,h30,h31,h32,h33,h34,h35,h36,h37,h38,h39,h40,h41,h42⟩ := hp
-  have hd : 0 ≤ e.wc_1_1 - e.wc_0_1 := sub_nonneg.mpr hwc
-  refine ⟨?aff, ?sum, ?self, ?n0, ?n1, ?n2, ?n3, ?n4, ?w, ?w2, ?heat, ?indep⟩
-  case aff => intro c; simp only [gen_defs]; field_simp; ring
-  case sum => simp only [gen_defs]; field_simp; ring
-  case self =>
-    set R1 := 1 / e.hb_0_1 + e.dwall_0 / 2 / e.kw with hR1
-    set R2 := 1 / e.hb_0_1 + e.dwall_1 / 2 / e.kw with hR2
-    have hR1p : 0 < R1 := by rw [hR1]; positivity
-    have hR2p : 0 < R2 := by rw [hR2]; positivity
-    set F := e.Abtot_0 / e.mbyp_0 / e.Abyp_0_1 with hF
-    have hFp : 0 < F := by rw [hF]; positivity
-    set S := (2 * e.wc_0_1 / R1 + 2 * e.wc_0_1 / R2) * F / e.cp
-        + 2 * (e.k * e.dbyp_0 / e.Lb56_0) * F / e.cp with hSdef
-    set Slim := (2 * e.wc_0_1 / R1 + 2 * e.wc_1_1 / R2) * F / e.cp
-        + 2 * (e.k * e.dbyp_0 / e.Lb56_0) * F / e.cp with hSlim
-    have hSnn : 0 ≤ S := by rw [hSdef]; positivity
-    have hSlimp : 0 < Slim := by rw [hSlim]; positivity
-    have hcons : cons_byp_7_66_ca e = 1 / Slim := by
-      simp only [gen_defs, hSlim, hR1, hR2, hF]; field_simp; try ring
-    have hws : WTs_byp_7_66_ca e = 1 - e.dz * S := by
-      simp only [gen_defs, hSdef, hR1, hR2, hF]; field_simp; try ring
-    have hle : S ≤ Slim := by
-      have : Slim - S = 2 * (e.wc_1_1 - e.wc_0_1) / R2 * F / e.cp := by
-        rw [hSlim, hSdef]; field_simp; try ring
-      have h0 : 0 ≤ 2 * (e.wc_1_1 - e.wc_0_1) / R2 * F / e.cp := by positivity
-      linarith
-    refine selfweight_le _ (cons_byp_7_66_ca e) e.dz S hws hSnn ?_ hdz
-    rw [hcons, mul_one_div]
-    exact (div_le_one hSlimp).mpr hle
-  case n0 => simp only [gen_defs]; positivity
-  case n1 => simp only [gen_defs]; positivity
-  case n2 => simp only [gen_defs]; positivity
-  case n3 => simp only [gen_defs]; positivity
-  case n4 => simp only [gen_defs]; positivity
-  case w => simp only [gen_defs]; positivity
-  case w2 => simp only [gen_defs]; positivity
-  case heat => intro c q1 q2 q3 q4; simp only [gen_defs]; positivity
-  case indep => intro c c' q1 q2 q3 q4; simp only [gen_defs, q1, q2, q3, q4]
+-- Bypass corner cell with the low-flow approximation.  Before defect 57 was repaired the update coupled the cell to the
+-- outer wall over the *inner* corner length while the limit used the outer one, and this theorem needed `wc_0_1 ≤ wc_1_1`;
+-- update and limit now use the same length and the class is proved like every other one.
+c04_class byp_7_66_ca
 
 /-- Non-vacuity: an admissible bundle exists (all symbols 1, `sixth = 1/6`). -/
 example : ∃ e : Env ℚ, Pos e := by
